@@ -213,7 +213,7 @@ Section MRAny.
   Theorem mr_div_any a b : can a -> can b -> can (mr_div k M a b) /\ can (mr_divin k M a b).
   Proof.
     intros Ha Hb. destruct (mr_inv_any b Hb) as [Ci _]. unfold mr_div, mr_divin.
-    split; [apply (mr_mul_ok k p HM _ _ Ci Ha) | apply (mr_mul_ok k p HM _ _ Ha Ci)].
+    split; [apply (mr_mul_ok k p HM _ _ Ha Ci) | apply (mr_mul_ok k p HM _ _ Ha Ci)].
   Qed.
   (* init from any integer the element type can hold (|x| < B), not only from [0,p) *)
   Theorem mr_init_any x : - B < x < B -> can (mr_init k M x) /\ V (mr_init k M x) = x mod p.
